@@ -30,7 +30,8 @@ CONSTANTS MaxN,        \* instances 1..n, n \in NSet
           Modes,       \* subset of {"default", "zone"}
           MinHedge,    \* subset of 0..3: bit 0 = MinimizeRequests, bit 1 = HedgingDelay > 0
           Terminals,   \* subset of BOOLEAN : IsTerminalError # nil
-          NoCancels    \* subset of BOOLEAN : TRUE = ...WithoutSuccessfulContextCancellation called directly
+          NoCancels    \* subset of BOOLEAN : TRUE = ...WithoutSuccessfulContextCancellation called directly,
+                       \* FALSE = DoUntilQuorum (differs only in CtxView, so {TRUE} suffices for model checking)
 
 VARIABLES
   cfg,              \* the call's configuration (constant during a behaviour)
